@@ -130,3 +130,9 @@ def run(rep: Report, repo: Repo):
     rep.ob('C16.forward', 'cycle -> c_prop(inject_cb)', ok)
     if not ok:
         rep.violate('C16.forward', mod, cyc, calls[0] if calls else 'self.c_prop()', 'cycle must forward its inject_cb to c_prop', node=calls[0] if calls else cyc)
+
+
+def thorough(rep, repo):
+    """Thorough tier: the quick rules plus checker self-validation on the C16 slice of the mutation corpus."""
+    from kvstatic import thorough as thorough_mod
+    thorough_mod.selftest_slice(rep, repo, 'C16')
